@@ -154,16 +154,31 @@ func (r *rewriter) stmt(s ast.Stmt) {
 			die("%s: channel operation in return statement is not supported", r.where(s))
 		}
 	case *ast.IfStmt:
-		if containsChanOp(v.Init) || containsChanOp(v.Cond) {
-			die("%s: channel operation in if header is not supported", r.where(s))
+		if containsChanOp(v.Cond) {
+			die("%s: channel operation in if condition is not supported", r.where(s))
+		}
+		if containsChanOp(v.Init) {
+			// if INIT; COND {..} else {..}  ->  { Yield; INIT; Reacquire; if COND {..} else {..} }
+			// (same scope for the variables INIT declares; an if is no break/continue target)
+			r.hoistInit(outer, v.If, v.Init, v.Cond.Pos(), "if")
 		}
 	case *ast.ForStmt:
 		if containsChanOp(v.Init) || containsChanOp(v.Cond) || containsChanOp(v.Post) {
 			die("%s: channel operation in for header is not supported", r.where(s))
 		}
 	case *ast.SwitchStmt:
-		if containsChanOp(v.Init) || containsChanOp(v.Tag) {
-			die("%s: channel operation in switch header is not supported", r.where(s))
+		if containsChanOp(v.Tag) {
+			die("%s: channel operation in switch tag is not supported", r.where(s))
+		}
+		if containsChanOp(v.Init) {
+			if outer != s {
+				die("%s: channel operation in the init of a labeled switch is not supported", r.where(s))
+			}
+			next := v.Body.Lbrace
+			if v.Tag != nil {
+				next = v.Tag.Pos()
+			}
+			r.hoistInit(outer, v.Switch, v.Init, next, "switch")
 		}
 	case *ast.RangeStmt:
 		if containsChanOp(v.X) {
@@ -182,6 +197,17 @@ func (r *rewriter) stmt(s ast.Stmt) {
 			}
 		}
 	}
+}
+
+// hoistInit moves the init statement of an if/switch in front of it, inside a
+// new block, with scheduling points around it.
+func (r *rewriter) hoistInit(stmt ast.Stmt, kw token.Pos, init ast.Stmt, next token.Pos, word string) {
+	r.used = true
+	r.stats["hoisted-init"]++
+	initText := r.text(init)
+	// "if INIT; COND"  ->  "{ Yield; INIT; Reacquire(); if COND"
+	r.add(r.off(kw), r.off(next), "{ simrt.Yield(simrt.CChan); "+initText+"; simrt.Reacquire(); "+word+" ")
+	r.insert(r.off(stmt.End()), " }")
 }
 
 func simpleArg(e ast.Expr) bool {
@@ -263,6 +289,13 @@ func (r *rewriter) walk() {
 			r.stmtList(v.Body)
 		case *ast.CommClause:
 			r.stmtList(v.Body)
+		case *ast.IfStmt:
+			// an "else if" is not an element of a statement list
+			if e, ok := v.Else.(*ast.IfStmt); ok {
+				r.stmt(e)
+			}
+		case *ast.LabeledStmt:
+			// covered through the statement list of the enclosing block
 		case *ast.SelectorExpr:
 			if id, ok := v.X.(*ast.Ident); ok && usesTime && id.Name == "time" && id.Obj == nil {
 				repl := map[string]string{"Sleep": "simrt.Sleep", "Now": "simrt.TimeNow", "Since": "simrt.TimeSince", "Until": "simrt.TimeUntil"}[v.Sel.Name]
